@@ -70,6 +70,11 @@ pub enum Ev {
     DisarmBcast,
     /// ... until released: their candidates reach the loops after those of later transactions
     ReleaseBcast,
+    /// a further client attaches to subscription `sub` (from scratch, skipping rows, or resuming
+    /// `back` changes before the newest one); the simulator does not read yet
+    Attach { sub: usize, mode: u8, back: u64 },
+    /// the slow client reads what it can (up to `n` events; 0 = until caught up)
+    ClientRead { client: usize, n: usize },
 }
 
 struct Sub {
@@ -84,6 +89,21 @@ struct Sub {
     events_since_flush: u64,
     last_result: Vec<String>,
     dead: bool,
+}
+
+struct Client {
+    sub: usize,
+    mode: u8,
+    rx: tokio::sync::mpsc::Receiver<(Bytes, klukai_types::api::QueryEventMeta)>,
+    rows: BTreeMap<u64, Vec<SqliteValue>>,
+    /// change id the stream must continue from (None until known)
+    expect_next: Option<u64>,
+    /// newest change id of the subscription when the client attached
+    attach_max: u64,
+    got_eoq: bool,
+    last: u64,
+    ended: bool,
+    events: u64,
 }
 
 struct Listener {
@@ -103,6 +123,7 @@ struct World {
     p_outbox: Vec<ChangeV1>,
     subs: Vec<Sub>,
     listeners: Vec<Listener>,
+    clients: Vec<Client>,
     stats: Stats,
     log: Vec<String>,
     known_hits: Vec<String>,
@@ -170,7 +191,7 @@ impl World {
                 return Err(SimError::Harness(format!("schema: {:?}", resp.results)));
             }
         }
-        Ok(World { s, p, p_outbox: vec![], subs: vec![], listeners: vec![], stats: Stats::default(), log: vec![], known_hits: vec![] })
+        Ok(World { s, p, p_outbox: vec![], subs: vec![], listeners: vec![], clients: vec![], stats: Stats::default(), log: vec![], known_hits: vec![] })
     }
 
     async fn query_node(&self, sql: &str) -> R<Vec<String>> {
@@ -493,6 +514,177 @@ impl World {
         Ok(Ok(()))
     }
 
+    async fn attach(&mut self, sub: usize, mode: u8, back: u64) -> R<Result<(), Violation>> {
+        if self.subs.is_empty() {
+            return Ok(Ok(()));
+        }
+        let sub = sub % self.subs.len();
+        if self.subs[sub].dead {
+            return Ok(Ok(()));
+        }
+        let id = self.subs[sub].id;
+        let Some(tx) = self.s.subs_cache.read().await.get(&id).cloned() else {
+            return Ok(Err(vio("C12", "subscription-not-attachable", json!({"sql": self.subs[sub].sql}))));
+        };
+        let attach_max = self.subs[sub].last_change;
+        let (params, expect_next) = match mode % 3 {
+            0 => (json!({}), None),
+            1 => (json!({"skip_rows": true}), Some(attach_max + 1)),
+            _ => {
+                let from = attach_max.saturating_sub(back);
+                (json!({"from": from}), Some(from + 1))
+            }
+        };
+        let params = serde_json::from_value(params).map_err(|e| SimError::Harness(e.to_string()))?;
+        let (evt_tx, evt_rx) = tokio::sync::mpsc::channel(1);
+        tokio::spawn(klukai_agent::api::public::pubsub::catch_up_sub(
+            self.subs[sub].handle.clone(),
+            params,
+            tx.subscribe(),
+            evt_tx,
+        ));
+        self.stats.fault(match mode % 3 {
+            0 => "attach-from-scratch",
+            1 => "attach-skip-rows",
+            _ => "resume-from-retained-id",
+        });
+        self.clients.push(Client { sub, mode: mode % 3, rx: evt_rx, rows: BTreeMap::new(), expect_next, attach_max, got_eoq: false, last: 0, ended: false, events: 0 });
+        // let the catch-up run into the full channel (it stalls right after its read)
+        let start = Instant::now();
+        while self.clients.last().unwrap().rx.is_empty() && start.elapsed() < Duration::from_millis(20) {
+            tokio::time::sleep(Duration::from_micros(200)).await;
+        }
+        self.log.push(format!("attach sub{sub} mode{}", mode % 3));
+        Ok(Ok(()))
+    }
+
+    async fn client_read(&mut self, ci: usize, n: usize, until_caught_up: bool) -> R<Result<(), Violation>> {
+        if self.clients.is_empty() {
+            return Ok(Ok(()));
+        }
+        let ci = ci % self.clients.len();
+        let target = self.subs[self.clients[ci].sub].last_change;
+        let sql = self.subs[self.clients[ci].sub].sql.clone();
+        if self.clients[ci].events == 0 && target > self.clients[ci].attach_max {
+            self.stats.fault("changes-committed-while-catch-up-was-stalled");
+        }
+        let start = Instant::now();
+        let mut read = 0usize;
+        loop {
+            let c = &mut self.clients[ci];
+            if c.ended {
+                break;
+            }
+            if n > 0 && read >= n {
+                break;
+            }
+            let caught_up = (c.mode != 0 || c.got_eoq) && c.last.max(c.expect_next.map(|x| x - 1).unwrap_or(0)) >= target;
+            if until_caught_up && caught_up && c.rx.is_empty() {
+                break;
+            }
+            let msg = match c.rx.try_recv() {
+                Ok(m) => Some(m),
+                Err(tokio::sync::mpsc::error::TryRecvError::Disconnected) => {
+                    c.ended = true;
+                    self.stats.probe("c12.stream-closed-by-server");
+                    break;
+                }
+                Err(tokio::sync::mpsc::error::TryRecvError::Empty) => None,
+            };
+            let Some((bytes, _meta)) = msg else {
+                if !until_caught_up && n > 0 {
+                    // a bounded read takes what is there
+                    if start.elapsed() > Duration::from_millis(30) {
+                        break;
+                    }
+                } else if start.elapsed() > Duration::from_secs(10) {
+                    return Ok(Err(vio(
+                        "C12",
+                        "attached-stream-stalled-behind-the-subscription",
+                        json!({"sql": sql, "client_last": c.last, "subscription_last": target, "mode": c.mode}),
+                    )));
+                }
+                tokio::time::sleep(Duration::from_micros(300)).await;
+                continue;
+            };
+            read += 1;
+            c.events += 1;
+            let line = &bytes[..bytes.len().saturating_sub(1)];
+            let ev: QueryEvent = serde_json::from_slice(line)?;
+            match ev {
+                QueryEvent::Columns(_) => {
+                    if c.mode != 0 || c.got_eoq {
+                        return Ok(Err(vio("C12", "unexpected-snapshot-event", json!({"sql": sql, "mode": c.mode}))));
+                    }
+                }
+                QueryEvent::Row(rowid, cells) => {
+                    if c.mode != 0 || c.got_eoq {
+                        return Ok(Err(vio("C12", "unexpected-snapshot-event", json!({"sql": sql, "mode": c.mode}))));
+                    }
+                    c.rows.insert(rowid.0, cells);
+                }
+                QueryEvent::EndOfQuery { change_id, .. } => {
+                    if c.mode != 0 || c.got_eoq {
+                        return Ok(Err(vio("C12", "unexpected-snapshot-event", json!({"sql": sql, "mode": c.mode}))));
+                    }
+                    c.got_eoq = true;
+                    let e = change_id.map(|x| x.0).unwrap_or(0);
+                    if e < c.attach_max {
+                        return Ok(Err(vio("C12", "snapshot-older-than-attach-point", json!({"sql": sql, "snapshot_change_id": e, "attach_point": c.attach_max}))));
+                    }
+                    c.last = e;
+                    c.expect_next = Some(e + 1);
+                }
+                QueryEvent::Change(kind, rowid, cells, ChangeId(id)) => {
+                    if c.mode == 0 && !c.got_eoq {
+                        return Ok(Err(vio("C12", "change-before-end-of-snapshot", json!({"sql": sql, "id": id}))));
+                    }
+                    let want = c.expect_next.unwrap_or(id);
+                    if id != want {
+                        let class = if id < want { "change-repeated-or-out-of-order" } else { "change-skipped-silently" };
+                        return Ok(Err(vio("C12", class, json!({"sql": sql, "expected_id": want, "got_id": id, "mode": c.mode, "attach_point": c.attach_max}))));
+                    }
+                    c.expect_next = Some(id + 1);
+                    c.last = id;
+                    match kind {
+                        ChangeType::Delete => {
+                            c.rows.remove(&rowid.0);
+                        }
+                        _ => {
+                            c.rows.insert(rowid.0, cells);
+                        }
+                    }
+                }
+                QueryEvent::Error(e) => {
+                    // continuity could not be provided: the stream must stop here
+                    c.ended = true;
+                    self.stats.probe("c12.stream-ended-with-error");
+                    let _ = e;
+                }
+            }
+        }
+        // a from-scratch client that is caught up must hold exactly the query result
+        let c = &self.clients[ci];
+        if until_caught_up && !c.ended && c.mode == 0 && c.got_eoq && !self.subs[c.sub].dead {
+            let mut replayed: Vec<String> = c.rows.values().map(|x| result_key(x)).collect();
+            replayed.sort();
+            // the state of the subscription at its newest change (= what the creating
+            // subscriber has replayed, verified against the query at every flush)
+            let mut expected: Vec<String> = self.subs[c.sub].rows.values().map(|x| result_key(x)).collect();
+            expected.sort();
+            self.stats.oracle_checks += 1;
+            if replayed != expected {
+                return Ok(Err(vio(
+                    "C12",
+                    "attached-client-state-differs-from-query",
+                    json!({"sql": sql, "diff(client,subscription)": crate::model::first_diff(&replayed, &expected)}),
+                )));
+            }
+            self.stats.probe("c12.attached-client-verified");
+        }
+        Ok(Ok(()))
+    }
+
     async fn exec(&mut self, ev: &Ev) -> R<Result<(), Violation>> {
         self.stats.steps += 1;
         match ev {
@@ -575,6 +767,17 @@ impl World {
                 let after = self.snapshot().await?;
                 self.note_diff(&before, &after);
                 Ok(Ok(()))
+            }
+            Ev::Attach { sub, mode, back } => {
+                self.stats.ev("Attach");
+                self.attach(*sub, *mode, *back).await
+            }
+            Ev::ClientRead { client, n } => {
+                self.stats.ev("ClientRead");
+                if *n > 0 {
+                    self.stats.fault("slow-client-partial-read");
+                }
+                self.client_read(*client, *n, *n == 0).await
             }
             Ev::ArmBcast => {
                 self.stats.ev("ArmBcast");
@@ -667,6 +870,14 @@ pub fn generate(seed: u64) -> Vec<Ev> {
             evs.push(Ev::ReleaseBcast);
             continue;
         }
+        if r.chance(0.15) {
+            evs.push(Ev::Attach { sub: r.usize_below(3), mode: r.below(3) as u8, back: r.below(6) });
+            continue;
+        }
+        if r.chance(0.12) {
+            evs.push(Ev::ClientRead { client: r.usize_below(4), n: if r.chance(0.5) { 0 } else { r.range(1, 5) as usize } });
+            continue;
+        }
         match r.weighted(&[45, 15, 10, 25, 3, 2]) {
             0 => {
                 let n = r.usize_below(2);
@@ -682,6 +893,9 @@ pub fn generate(seed: u64) -> Vec<Ev> {
     evs.push(Ev::Deliver { mode: 0 });
     evs.push(Ev::Apply);
     evs.push(Ev::Flush);
+    for c in 0..8 {
+        evs.push(Ev::ClientRead { client: c, n: 0 });
+    }
     evs
 }
 
@@ -712,6 +926,8 @@ pub async fn run_events(seed: u64, events: &[Ev], base: &Path, tag: &str) -> R<R
             Ev::ArmBcast => "G".into(),
             Ev::DisarmBcast => "g".into(),
             Ev::ReleaseBcast => "R".into(),
+            Ev::Attach { mode, .. } => format!("T{mode}"),
+            Ev::ClientRead { n, .. } => format!("c{}", (*n).min(2)),
         };
         fnv(&mut sh, s.as_bytes());
     }
